@@ -108,6 +108,18 @@ def dummy_tree():
     return _dummy
 
 
+_shared = {}
+
+
+def shared(attr, ic, relax):
+    from anytree import Resolver
+
+    key = (attr, ic, relax)
+    if key not in _shared:
+        _shared[key] = Resolver(attr, ignorecase=ic, relax=relax)
+    return _shared[key]
+
+
 def perform(q, variant, par, ch):
     from . import nodes as N
     from anytree import Resolver
@@ -123,6 +135,12 @@ def perform(q, variant, par, ch):
     obs = {"q": q["q"], "path": path, "variant": variant}
     if q["q"] == "get":
         obs["res"] = outcome(lambda: Resolver(attr, ignorecase=q["ic"], relax=q["relax"]).get(start, path), lab, payload=True)
+        # the same question through a resolver object that has answered every earlier vector of this worker
+        again = outcome(lambda: shared(attr, q["ic"], q["relax"]).get(start, path), lab, payload=True)
+        if again != obs["res"]:
+            obs["fresh_resolver"] = obs["res"]
+            obs["res"] = again
+            obs["long_lived_resolver_differs"] = True
         return obs
     runs = []
     cache = getattr(Resolver, "_match_cache", None)
@@ -147,6 +165,9 @@ def perform(q, variant, par, ch):
         runs.append({
             "strict": outcome(lambda: Resolver(attr, ignorecase=q["ic"], relax=False).glob(start, path), lab),
             "relaxed": outcome(lambda: Resolver(attr, ignorecase=q["ic"], relax=True).glob(start, path), lab)})
+    # ... and through resolver objects that have answered every earlier vector of this worker (nothing is cleared)
+    runs.append({"strict": outcome(lambda: shared(attr, q["ic"], False).glob(start, path), lab),
+                 "relaxed": outcome(lambda: shared(attr, q["ic"], True).glob(start, path), lab)})
     obs["runs"] = runs
     return obs
 
